@@ -11,6 +11,7 @@ contain every MUST, nothing forbidden, and be identical under all schedules.
 
 from __future__ import annotations
 
+import json
 import os
 import random
 import shutil
@@ -57,7 +58,7 @@ def gen_case(run_seed: int, tier: str) -> dict[str, Any]:
         perm = list(range(len(args)))
         if i:
             k.shuffle(perm)
-        scheds.append({"list_seed": k.getrandbits(32), "listing": "native" if i == 0 else k.choice(["shuffle", "shuffle", "reverse", "sorted"]), "arg_perm": perm, "via": "api" if i % 2 == 0 else "cli"})
+        scheds.append({"list_seed": k.getrandbits(32), "listing": "native" if i == 0 else k.choice(["shuffle", "shuffle", "reverse", "sorted"]), "arg_perm": perm, "via": ("api", "cli", "cfg")[i % 3]})
     # sometimes the whole project lives under a directory whose name is default-excluded
     # (components above the arguments are the caller's business and must not be judged)
     under = sub_rng(run_seed, "under").choice([None] * 6 + ["build", "dist", "node_modules", "venv"])
@@ -141,6 +142,37 @@ def resolve_once(scratch: str, case: dict[str, Any], sch: dict[str, Any]) -> tup
     flags = cli_flags(s) if via == "cli" else None
     if via == "cli" and flags is None:
         via = "api"
+    cfg_path = None
+    if via == "cfg":
+        # the same settings given in the project's config file instead of on the command line
+        if any(os.path.lexists(os.path.join(troot, n)) for n in (".flowmark.toml", "flowmark.toml", "pyproject.toml")):
+            via = "api"
+        else:
+            def tl(xs: list[str]) -> str:
+                return "[" + ", ".join(json.dumps(x) for x in xs) + "]"
+
+            k2 = random.Random(sch["list_seed"])
+            lines = []
+            if s["extend_include"]:
+                lines.append(f"extend-include = {tl(s['extend_include'])}")
+            if s["exclude"] is not None:
+                lines.append(f"exclude = {tl(s['exclude'])}")
+            if s["extend_exclude"]:
+                lines.append(f"{k2.choice(['extend-exclude', 'extend_exclude'])} = {tl(s['extend_exclude'])}")
+            lines.append(f"files-max-size = {int(s['files_max_size'])}")
+            lines.append(f"respect-gitignore = {'true' if s['respect_gitignore'] else 'false'}")
+            lines.append(f"force-exclude = {'true' if s['force_exclude'] else 'false'}")
+            k2.shuffle(lines)
+            body = "\n".join(lines) + "\n"
+            name = k2.choice([".flowmark.toml", "flowmark.toml", "pyproject.toml"])
+            if name == "pyproject.toml":
+                body = "[tool.flowmark]\n" + body
+            elif k2.random() < 0.3:
+                body = "[file-discovery]\n" + body
+            cfg_path = os.path.join(troot, name)
+            with open(cfg_path, "w", encoding="utf-8") as f:
+                f.write(body)
+            flags = []
 
     if via == "api":
 
@@ -160,7 +192,11 @@ def resolve_once(scratch: str, case: dict[str, Any], sch: dict[str, Any]) -> tup
 
             return main(argv)
 
-    res = simproc.run_process(ip, fn, b"", cwd=os.path.join(scratch, "t"))
+    try:
+        res = simproc.run_process(ip, fn, b"", cwd=os.path.join(scratch, "t"))
+    finally:
+        if cfg_path is not None:
+            os.unlink(cfg_path)
     if res.exit != 0:
         return None, f"exit={res.exit} exc={res.exc} stderr={res.stderr[-200:].decode('utf-8', 'replace')}", ip, via
     if via == "api":
